@@ -180,6 +180,17 @@ claim("C07", "translation_validation",
       "translation validation of the real rewriting passes against an executable TLA+ tree semantics (Rewrite.tla "
       "over Expr.tla) with TLC; programs are TLC-generated behaviours of ProgGen.tla")
 
+claim("C09", "model_checking",
+      "for every TLC-generated program of the 'kinds' profile (powers, quotients, comparisons, min/max, subscripts, "
+      "every exercisable built-in on scalars, arrays and user types, a registered right-hand-side function) the real "
+      "infer_kinds gives the table and the real interpreter runs a step on a store that records the class of every "
+      "value; TLC walks the store events and requires the kind of the variable to admit the value, and every assigned "
+      "variable to have a kind",
+      "trusted: value classification (tagged ndarray subclass for user types); one input point per program; Admits "
+      "is lenient where the property is silent",
+      "TLA+ contract spec (KindValues.tla) evaluated by TLC over kind tables and store events recorded from the real "
+      "inference and interpreter; programs are TLC-generated behaviours of ProgGen.tla")
+
 NOT_YET = "check not built yet (work in progress, see DESIGN.md section 11)"
 NOT_APPLICABLE = {}
 
